@@ -216,7 +216,7 @@ class ConditionSelector(ConditionItem):
             raise SigmaConditionError("Invalid quantifier in selector", source=self.source)
         self.pattern = self.args[1]
 
-    _generated_prefix: ClassVar[re.Pattern[str]] = re.compile("_filt_[a-z]+_|_cond_[a-z]+$")
+    _generated_prefix: ClassVar[re.Pattern[str]] = re.compile("_filt_[a-z]{10}_|_cond_[a-z]{10}$")
 
     def resolve_referenced_detections(
         self, detections: "SigmaDetections"
